@@ -1,6 +1,6 @@
 CONSTANTS Callers = {c1, c2, c3, c4, c5} MaxCalls = 2
 CONSTANT Prompts <- MCPrompts
 SPECIFICATION Spec
-INVARIANTS InvC32_Exclusive InvC32_NoUseAfterUnregister InvC32_NoPanic InvMonitors InvHolder
+INVARIANTS InvC32_Exclusive InvC32_NoUseAfterUnregister InvC32_NoPanic InvMonitors InvHolder InvTokenOnce
 SYMMETRY Symm
 CHECK_DEADLOCK FALSE
